@@ -188,7 +188,15 @@ func c38(c *an.Check) {
 		c.Gate(an.GateSpec{Construct: "confparse." + w.fn + " (nil,nil) return", Fn: f,
 			Sink: func(s *an.State, ins ssa.Instruction) bool {
 				ret, ok := ins.(*ssa.Return)
-				return ok && s.IsNil(s.RetVal(ret, 0)) && s.KnownNilErr(s.RetVal(ret, -1))
+				if !ok || !s.KnownNilErr(s.RetVal(ret, -1)) {
+					return false
+				}
+				v := s.RetVal(ret, 0)
+				if s.IsNil(v) {
+					return true
+				}
+				// the unchecked result of a keypem parser, which yields (nil,nil) when no PEM block is present
+				return !s.NonNil(v) && an.ResultCallTo(v, an.R("keypem", "", w.inner)) != nil
 			},
 			Reqs: []an.Req{an.FactReq("input is empty", func(s *an.State, x, y ssa.Value, r an.Rel) bool {
 				return r == an.EQ && an.IsIntConst(y, 0) && an.LenOf(s, x, func(a ssa.Value) bool { return an.IsParam(a, 0) })
